@@ -325,6 +325,8 @@ def rule_x4(repo, col):
         while cur is not None and cur is not f.node:
             if isinstance(cur, ast.If) and norm(cur.test) == "partial":
                 return child in cur.body
+            if isinstance(cur, ast.If) and norm(cur.test) == "not partial":
+                return child in cur.orelse
             child, cur = cur, parents.get(cur)
         return None
 
